@@ -657,6 +657,7 @@ func Run(cfg hx.Config) error {
 	}
 	runSQL(r, cfg, rnd)
 	runWFN(r, cfg, rnd)
+	runWFNGrammar(r, cfg, rnd)
 	runDuration(r, cfg, rnd)
 	runEncodeAliasing(r, cfg, rnd)
 	runReceiverIndependence(r, cfg, rnd)
